@@ -21,6 +21,10 @@ CLAIMED = {
         text="Lean theorems: for every uniform stream (hence every seed), network, grid and fuel the SSA loop (with its reaction_fired / rule_step / Lambda==0 flags) equals the restartable jump-process specification (ssa_refines_jump); sample_discrete returns the index whose cumulative interval contains u*Lambda, zero-propensity reactions are never chosen; over R: waiting-time tail, memorylessness, choice interval of length a_j/Lambda, one-step rectangle. The law-level composition into the master equation is NOT formalised (ssa_exact_partial). Tie: the Lean loop driven by the same MT19937-64 stream reproduces every reported row of SSASimulator bit for bit; G-test against expm(Qt) as statistical support and failing-input search.",
         note=NOTE_COMMON + "partial: CTMC composition of one-step kernels is textbook, not in Mathlib; twister equidistribution assumed; u=0 (2^-53) excluded.",
         technique="Lean 4 proof (refinement to a jump-process spec + interval-measure lemmas) + bit-exact trajectory correspondence", ref="DESIGN.md §4 C05"),
+    "C06": dict(
+        text="Lean theorems (every stream, unbounded steps): without rules the SSA loop moves the state only by whole net stoichiometric columns, so the reported rows form a chain of non-negative integer combinations (ssa_run_lattice, via the C05 refinement); integrality and every linear conservation law follow (integrality, conservation); sample_discrete never indexes past the last reaction; a zero-propensity state persists (absorbing_step); in safe mode a positive propensity implies every reactant, catalysts included, is present in its required number (safe_full_complement). Tie: plain/safe SSA, volume and delay loops reproduced bit for bit; the invariants are also monitored on every implementation row (exact MILP lattice membership, null-space conservation, non-negativity, absorption, counting-species test of safe firings).",
+        note=NOTE_COMMON + "loop-level non-negativity of mass-action networks is monitored on the implementation, not yet proved in Lean; lattice theorems are proved for the SSA loop (delay accounting is C10, volume C11).",
+        technique="Lean 4 proof (loop invariants by induction over runs) + bit-exact correspondence + invariant monitor", ref="DESIGN.md §4 C06"),
 }
 PENDING = {}
 def main():
